@@ -1,6 +1,6 @@
 use sim::work::*;
 fn main() {
-  for k in [5u64, 10, 15, 20, 25, 30, 5000, 35, 40, 1005, 2010] {
+  for k in [5u64, 10, 97, 194, 97000, 2010] {
     let ver = BIG_VERSIONS + k;
     let d = make_doc(Profile::Basic, "d0", ver);
     println!("ver BIG+{} json {} bytes", k, serde_json::to_string(&d.fields).unwrap().len());
